@@ -1,11 +1,27 @@
 import LitedramVerif.Spec.Dram
+import LitedramVerif.Spec.BankMon
 import Drv.Util
 open DrvUtil
 
 structure DramMonSt where
   cfg : Dram.Cfg
   mon : Dram.Mon
+  banks : BankMon.Banks := BankMon.Banks.init      -- the monitor of the C02 theorem (Spec/BankMon.lean), run alongside
   err : Option String := none
+
+/-- the request a RD/WR of this cycle serves: head of the accepted-request queue of the addressed bank -/
+def servedOf (c : Dram.Cfg) (m : Dram.Mon) (acc : List (Nat × Dram.Request)) (phases : Array Dram.Phase) : Option (Nat × Nat) :=
+  let queues := acc.foldl (fun (q : Array (List Dram.Request)) (gb, rq) => q.set! gb (q[gb]! ++ [rq])) m.queues
+  (List.range c.nphases).findSome? fun i =>
+    let p := phases[i]!
+    match Dram.decode p with
+    | .rd _ _ | .wr _ _ =>
+      match Dram.selected c p with
+      | [r] => match queues[r * c.nbanks + p.bank]! with
+               | rq :: _ => some (r * c.nbanks + p.bank, Dram.reqRow c rq.addr)
+               | [] => none
+      | _ => none
+    | _ => none
 
 /-- DRAM specification monitor on a DFI trace.
 cfg: nphases nranks nbanks rdphase wrphase colbits align tRCD tRP tRAS tRC tRRD tFAW tCCD tWTP tWTR tRFC tZQCS
@@ -31,8 +47,16 @@ def drvDramMon (st : Option DramMonSt) (xs : List Nat) : Option DramMonSt × Str
         ({ csN := arr.getD b 0, bank := arr.getD (b+1) 0, address := arr.getD (b+2) 0, casN := n2b (arr.getD (b+3) 1),
            rasN := n2b (arr.getD (b+4) 1), weN := n2b (arr.getD (b+5) 1), rddataEn := n2b (arr.getD (b+6) 0),
            wrdataEn := n2b (arr.getD (b+7) 0) } : Dram.Phase)
+      let bc : BankMon.Cfg := { nphases := s.cfg.nphases, nranks := s.cfg.nranks, nbanks := s.cfg.nbanks,
+                                rdphase := s.cfg.rdphase, wrphase := s.cfg.wrphase }
+      let bnk := BankMon.cycleStep bc (servedOf s.cfg s.mon acc phases) s.banks phases
       match Dram.Mon.step s.cfg s.mon acc phases with
-      | .ok m => (some { s with mon := m }, "ok")
+      | .ok m =>
+        match bnk with
+        | some b' => (some { s with mon := m, banks := b' }, "ok")
+        | none =>
+          let msg := s!"VIOL {s.mon.cycle} bank state machine (Spec/BankMon, the monitor of C02.controller_dfi_legal) rejects this cycle"
+          (some { s with err := some msg }, msg)
       | .error e =>
         let msg := s!"VIOL {s.mon.cycle} {e}"
         (some { s with err := some msg }, msg)
